@@ -10,8 +10,10 @@ use vh::database::edge::{Edge, EdgeDeletionEntry};
 use vh::database::node::{Node, NodeDeletionEntry};
 use vh::security::{SigningKey, Uid};
 
+/// one model character = one block of eight bytes: a = `{"a":1} `, b = eight spaces, so that the sequences a, ab, ba are
+/// JSON objects (the only JSON payloads the code signs) and the same blocks can be used in every other field
 fn blocks(sv: &str) -> Vec<u8> {
-    sv.bytes().flat_map(|c| std::iter::repeat(c).take(8)).collect()
+    sv.bytes().flat_map(|c| if c == b'a' { b"{\"a\":1} ".to_vec() } else { b"        ".to_vec() }).collect()
 }
 fn uid(sv: &str) -> Uid {
     let b = blocks(sv);
@@ -40,7 +42,7 @@ fn build(r: &Value, vkey: &[u8]) -> Row {
     match s(r, "kind").as_str() {
         "node" => Row::N(Node {
             id: uid(&s(r, "id")), room_id: if s(r, "room") == "-" { None } else { Some(uid(&s(r, "room"))) }, cdate: date(&s(r, "c")), mdate: date(&s(r, "m")),
-            _entity: text(&s(r, "ent")), _json: None, _binary: if s(r, "bin") == "-" { None } else { Some(blocks(&s(r, "bin"))) },
+            _entity: text(&s(r, "ent")), _json: if s(r, "json") == "-" { None } else { Some(text(&s(r, "json"))) }, _binary: if s(r, "bin") == "-" { None } else { Some(blocks(&s(r, "bin"))) },
             verifying_key: vkey.to_vec(), _signature: vec![], _local_id: None }),
         "edge" => Row::E(Edge { src: uid(&s(r, "src")), src_entity: text(&s(r, "sent")), label: text(&s(r, "label")), dest: uid(&s(r, "dst")), cdate: date(&s(r, "c")),
             verifying_key: vkey.to_vec(), signature: vec![] }),
